@@ -9,10 +9,10 @@ PIN = {}
 FUNCTIONS = simh.FUNCTIONS
 META = {
     'bounds': {'SIMH.machines': '2-4 (speeds 10/20, or 10,20,30,40)', 'SIMH.observations': '1-3 (4 in the array-contention profile)', 'SIMH.start': '0..3 (0..7 for the late third observation of the singles profile)',
-               'SIMH.duration': '1..2 (quick) / 1..3 (thorough)',
+               'SIMH.duration': '1..2 (quick) / 1..3 (thorough); 1.5 and 2.5 in the fixed-horizon C12 shards (a duration that is not a whole number of timesteps)',
                'SIMH.workflow': '1-3 tasks; shapes chain, fork, join, free, triangle and three relabelled variants whose node labels are not in topological order; task duration 0..2 injected as int (or compute demand over machine speed), edge volumes 0..15',
                'SIMH.algorithms': ['BatchProcessing(partitions 1-3, min 1; one degenerate per-observation split with min 0)', 'QueueProcessing', 'Dynamic+static stub', 'Greedy+static stub',
-                                   'Adversary (any machine index, optionally ignoring precedence)', 'ReserveOnlyBatch (reserves, leaves release to the Scheduler)'],
+                                   'Adversary (any machine index, optionally ignoring precedence)', 'ReserveOnlyBatch (reserves, leaves release to the Scheduler)', 'DupFirst (proposes the first free machine for every ready task: duplicates the Scheduler defers)'],
                'SIMH.inputs': 'time-like and choice-like inputs are case-split by the solver and each case runs natively; data rates / capacities unbounded symbolic in the sizes harness',
                'SIMH.horizon': 'serial bound of C05 (<= ~80 steps)'},
     'outside_bounds': ['clusters > 4 machines, > 3 observations, DAGs > 3 tasks in whole-simulation runs', 'SimPy tie-breaks no input can produce (E11)'],
